@@ -184,8 +184,10 @@ def run_unit(unit):
 
         whole_stack = {"W", "^", "!", "„", "‟", "Ȯ", "†", "¨ẇ", "Ė"}
         # elements that read the context variable see the function's own context when called: left out
+        # ... and so are the clock / calendar constants (two runs of one program differ when the second ticks)
         keys = [key for key in E.elements if key not in whole_stack and 0 <= E.elements[key][1] <= 3
-                and "context_values" not in E.elements[key][0]]
+                and "context_values" not in E.elements[key][0] and "datetime" not in E.elements[key][0]
+                and "time." not in E.elements[key][0]]
         import random as _random
         def run(prog, stack):
             """final stack (canonical) of a normally completed run, else None"""
